@@ -1018,6 +1018,10 @@ impl<'a> Ref<'a> {
 
     pub fn run(mut self, defs: &[(String, String)]) -> RefResult {
         for (n, v) in defs {
+            if n.contains('\n') || v.contains('\n') {
+                // not expressible as a C command-line define
+                return RefResult { expected: Expected::Skip("API define with a line break".into()), hints: self.hints, stats: self.stats };
+            }
             let toks = pp_tokens(&format!("{} {}", n, v));
             if toks.iter().any(rssl_unlexable) {
                 return RefResult { expected: Expected::Skip("API define outside rssl's lexical grammar".into()), hints: self.hints, stats: self.stats };
